@@ -57,7 +57,11 @@ func analysisCheck(cfg *core.Config, oracle, evalCounter, rule string, assumptio
 	pl := NewPipeline(cfg, rep, progs, true)
 	defer pl.Close()
 	analysed := 0
-	pl.Run(drive.Job{Prop: cfg.Prop, Oracles: []string{oracle}}, func(r drive.Record) {
+	var targets []string
+	if oracle == "c10" {
+		targets = []string{"ts"} // the exact values are also read back from a target
+	}
+	pl.Run(drive.Job{Prop: cfg.Prop, Targets: targets, Oracles: []string{oracle}}, func(r drive.Record) {
 		if pl.StdHandler(r) {
 			return
 		}
